@@ -114,7 +114,8 @@ Print Assumptions C08_path_qubo.
 (* ====================================================================== *)
 (* Common hypotheses on the VRPTW st:
      no_depot_loop st    the VRPTW graph has no depot self-arc (the empty trip is not a route),
-     capacity_free st    capacity is not binding: every partial load of every node sequence is in [0, cap].
+     capacity_free st    capacity is not binding: along every trip depot - pairwise distinct customers - depot every
+                         partial load is in [0, cap] (the node sequences a route can be; nothing is asked of others).
    arc_solution I x v := x is a 0-1 list of length num_variables with A x = b and c.x = v (C05's terms);
    seq_solution I x v := x is a 0-1 vector with A x = b, x'Rx = 0 and c.x + x'Qo x = v (C07's terms). *)
 
